@@ -7,6 +7,8 @@ from symx.proto import (Entropy, setup_hash_axioms, outcome, okind, orders, new_
                         klass, PEER, SIDE_BYTE, msg_log)
 
 PID = "C04"
+TECHNIQUE = 'symbolic execution of start(): z3 proves message log = x + w*mu, x independent of password/identities, shift map bijective (LIA); sampling obligations of C11; complete enumeration on toy groups as ground job'
+LEVEL_NOTE = 'uniformity is decided as its algebraic core, nothing is sampled statistically; GC contract; M, N, S subgroup members (C14)'
 EXPLANATION = (
     "The distributional statement is decided as its algebraic core. (1) The real start() of the three classes runs over "
     "the abstract prime-order group with symbolic password, identities and entropy: the solver proves that the "
